@@ -336,6 +336,11 @@ MUTATIONS += [
     dict(id="C12-repairindex-sound-pack-reread", prop="C12", file=RIXF, old="                    if index_size != size || read_all {", new="                    if index_size >= size || read_all {"),
 ]
 
+MUTATIONS += [
+    dict(id="C03-packer-finalize-skips-writer-when-empty", prop="C03", file=PK, old="        if !self.basic.is_empty() {\n            self.save()?;\n        }\n\n        self.file_writer.take().unwrap().finalize()?;\n", new="        if !self.basic.is_empty() {\n            self.save()?;\n            self.file_writer.take().unwrap().finalize()?;\n        }\n"),
+    dict(id="C03-packer-finalize-writer-error-ignored", prop="C03", file=PK, old="        self.file_writer.take().unwrap().finalize()?;\n\n        Ok(self.basic.take_stats())", new="        _ = self.file_writer.take().unwrap().finalize();\n\n        Ok(self.basic.take_stats())"),
+]
+
 HARMLESS = [
     dict(id="H-C05-trees-symlink-continue", prop="C05", file=CK, old="        for node in tree.nodes {\n            match node.node_type {", new="        for node in tree.nodes {\n            if node.node_type == NodeType::Symlink {\n                continue;\n            }\n            match node.node_type {"),
     # independent statements reordered
